@@ -3,6 +3,7 @@
   column records were created in this history (action `add`): the facts behind C05's "each column's name and position".
 -/
 import SqlizeModel.Proofs.MergeRefine
+import SqlizeModel.Spec.Exec
 
 namespace Sqlize
 namespace Table
@@ -171,12 +172,55 @@ theorem addColumn_after_missing (t : Table) (col : Column) (mysql : Bool) (hg : 
   rw [hgra]
   rfl
 
+/-- `pkSwap` only reorders -/
+theorem pkSwap_perm (l : List Opt) : (pkSwap l).Perm l := by
+  unfold pkSwap
+  cases hl : l.getLast? with
+  | none => exact List.Perm.refl _
+  | some last =>
+    simp only
+    cases hf : l.dropLast.findIdx? (·.kind == .primaryKey) with
+    | none => exact List.Perm.refl _
+    | some i =>
+      simp only
+      have hlt : i < l.dropLast.length := (List.findIdx?_eq_some_iff_getElem.mp hf).1
+      have hne : l ≠ [] := by intro e; subst e; simp at hl
+      have hsplit : l = l.dropLast ++ [last] := by
+        have h1 := List.dropLast_concat_getLast hne
+        have h2 : l.getLast hne = last := by
+          have := List.getLast?_eq_some_getLast hne
+          rw [this] at hl; exact Option.some.inj hl
+        rw [h2] at h1; exact h1.symm
+      have hget : l.dropLast[i]! = l.dropLast[i] := getElem!_pos l.dropLast i hlt
+      rw [hget]
+      -- init = A ++ x :: B;  (A ++ last :: B) ++ [x] ~ (A ++ x :: B) ++ [last]
+      have hinit : l.dropLast = l.dropLast.take i ++ l.dropLast[i] :: l.dropLast.drop (i + 1) := by
+        conv => lhs; rw [← List.take_append_drop i l.dropLast]
+        rw [List.drop_eq_getElem_cons hlt]
+      have hset : l.dropLast.set i last = l.dropLast.take i ++ last :: l.dropLast.drop (i + 1) := by
+        rw [List.set_eq_take_append_cons_drop, if_pos hlt]
+      rw [hset]
+      conv => rhs; rw [hsplit, hinit]
+      -- both sides: A ++ (two elements and B in some order)
+      simp only [List.append_assoc, List.cons_append]
+      apply List.Perm.append_left
+      -- last :: (B ++ [x]) ~ x :: (B ++ [last])
+      have h1 : (last :: (l.dropLast.drop (i + 1) ++ [l.dropLast[i]])).Perm
+          (last :: l.dropLast[i] :: l.dropLast.drop (i + 1)) :=
+        List.Perm.cons _ (List.perm_append_singleton _ _)
+      have h2 : (l.dropLast[i] :: (l.dropLast.drop (i + 1) ++ [last])).Perm
+          (l.dropLast[i] :: last :: l.dropLast.drop (i + 1)) :=
+        List.Perm.cons _ (List.perm_append_singleton _ _)
+      exact h1.trans ((List.Perm.swap _ _ _).trans h2.symm)
+
 /-- an existing live column (`add`): `AddColumn` merges into it, the names do not change -/
 theorem addColumn_merge (t : Table) (col : Column) (mysql : Bool) (h : t.Inv) (ha : t.AllAdd) (id : Nat)
     (hg : t.colIdx.get? col.name = some id) :
     ∃ t', t.addColumn col mysql = .ok t' ∧ t'.colNames = t.colNames ∧ t'.AllAdd ∧ t'.pendingPos = t.pendingPos ∧
       (∀ x ∈ t'.cols, (x ∈ t.cols ∧ x.name ≠ col.name) ∨
-        (x.name = col.name ∧ x.cur.typ = if mysql then col.cur.typ else x.cur.typ)) := by
+        (x.name = col.name ∧ (x.cur.typ = if mysql then col.cur.typ else x.cur.typ) ∧
+          ∃ old ∈ t.cols, old.name = col.name ∧
+            x.cur.opts = pkSwap ((if col.action == .modify && mysql && col.cur.typ.isSome then [] else old.cur.opts) ++ col.cur.opts))) := by
   unfold addColumn
   rw [hg]
   simp only
@@ -204,7 +248,7 @@ theorem addColumn_merge (t : Table) (col : Column) (mysql : Bool) (h : t.Inv) (h
     · rw [if_pos hij, if_pos hlt] at hj
       right
       rw [← Option.some.inj hj]
-      refine ⟨hnm, ?_⟩
+      refine ⟨hnm, ?_, t.cols[id], List.getElem_mem hlt, hnm, rfl⟩
       cases mysql <;> rfl
     · rw [if_neg hij] at hj
       left
@@ -216,8 +260,46 @@ theorem addColumn_merge (t : Table) (col : Column) (mysql : Bool) (h : t.Inv) (h
       exact hij ((List.getElem?_inj hltN h.cols.nodup).mp (h2.trans h1.symm))
 
 
-/-- name, action and type of every column record, in order -/
-def sig (t : Table) : List (String × Action × Option String) := t.cols.map (fun c => (c.name, c.action, c.cur.typ))
+/-- the option kinds (with their values) of an option list as the reference engine reads them; PRIMARY KEY and the
+    foreign-key marks are not among them -/
+def optKind (o : Opt) : Option Spec.COpt :=
+  match o.kind with
+  | .primaryKey => none
+  | .notNull => some .notNull
+  | .null => some .null
+  | .autoIncrement => some .autoInc
+  | .uniqKey => some .uniq
+  | .default => some (.default (defaultCanon o.dflt))
+  | .comment => some (.comment o.text)
+  | .reference => none
+
+def optKinds (os : List Opt) : List Spec.COpt := os.filterMap optKind
+
+theorem foldl_optKinds (f : List Spec.COpt × Bool → Opt → List Spec.COpt × Bool)
+    (hf : ∀ acc o, (f acc o).1 = acc.1 ++ (optKind o).toList) (os : List Opt) :
+    ∀ acc, (os.foldl f acc).1 = acc.1 ++ optKinds os := by
+  induction os with
+  | nil => intro acc; simp [optKinds]
+  | cons o r ih =>
+    intro acc
+    rw [List.foldl_cons, ih, hf]
+    unfold optKinds
+    rw [List.filterMap_cons]
+    cases optKind o <;> simp
+
+theorem optsOf_fst (os : List Opt) : (Spec.optsOf os).1 = optKinds os := by
+  unfold Spec.optsOf
+  rw [foldl_optKinds _ _ os]
+  · simp
+  · intro acc o
+    cases hk : o.kind <;> simp [optKind, hk]
+
+theorem optKinds_pkSwap (l : List Opt) : (optKinds (pkSwap l)).Perm (optKinds l) :=
+  (pkSwap_perm l).filterMap _
+
+/-- name, action, type and option kinds of every column record, in order -/
+def sig (t : Table) : List (String × Action × Option String × List Spec.COpt) :=
+  t.cols.map (fun c => (c.name, c.action, c.cur.typ, optKinds c.cur.opts))
 
 theorem names_of_sig {t t' : Table} (h : t'.sig = t.sig) : t'.colNames = t.colNames := by
   have := congrArg (List.map Prod.fst) h
@@ -225,20 +307,52 @@ theorem names_of_sig {t t' : Table} (h : t'.sig = t.sig) : t'.colNames = t.colNa
 
 theorem allAdd_of_sig {t t' : Table} (h : t'.sig = t.sig) (ha : t.AllAdd) : t'.AllAdd := by
   intro c hc
-  have hm : (c.name, c.action, c.cur.typ) ∈ t'.sig :=
-    List.mem_map_of_mem (f := fun c : Column => (c.name, c.action, c.cur.typ)) hc
+  have hm : (c.name, c.action, c.cur.typ, optKinds c.cur.opts) ∈ t'.sig :=
+    List.mem_map_of_mem (f := fun c : Column => (c.name, c.action, c.cur.typ, optKinds c.cur.opts)) hc
   rw [h] at hm
   obtain ⟨c0, hc0, he⟩ := List.mem_map.mp hm
   rw [← (Prod.mk.inj (Prod.mk.inj he).2).1]; exact ha c0 hc0
 
-/-- every column of the result has a column of the original with the same name and type -/
+/-- every column of the result has a column of the original with the same name, type and option kinds -/
 theorem mem_of_sig {t t' : Table} (h : t'.sig = t.sig) {c : Column} (hc : c ∈ t'.cols) :
-    ∃ c0 ∈ t.cols, c0.name = c.name ∧ c0.cur.typ = c.cur.typ := by
-  have hm : (c.name, c.action, c.cur.typ) ∈ t'.sig :=
-    List.mem_map_of_mem (f := fun c : Column => (c.name, c.action, c.cur.typ)) hc
+    ∃ c0 ∈ t.cols, c0.name = c.name ∧ c0.cur.typ = c.cur.typ ∧ optKinds c0.cur.opts = optKinds c.cur.opts := by
+  have hm : (c.name, c.action, c.cur.typ, optKinds c.cur.opts) ∈ t'.sig :=
+    List.mem_map_of_mem (f := fun c : Column => (c.name, c.action, c.cur.typ, optKinds c.cur.opts)) hc
   rw [h] at hm
   obtain ⟨c0, hc0, he⟩ := List.mem_map.mp hm
-  exact ⟨c0, hc0, (Prod.mk.inj he).1, (Prod.mk.inj (Prod.mk.inj he).2).2⟩
+  have h2 := (Prod.mk.inj (Prod.mk.inj he).2).2
+  exact ⟨c0, hc0, (Prod.mk.inj he).1, (Prod.mk.inj h2).1, (Prod.mk.inj h2).2⟩
+
+/-- the bare foreign-key marks do not count among the option kinds -/
+theorem optKinds_dropLastFkMark (os : List Opt) : optKinds (dropLastFkMark os) = optKinds os := by
+  unfold dropLastFkMark
+  cases hf : os.reverse.findIdx? (fun o => o.kind == .reference && !o.hasExpr) with
+  | none => rfl
+  | some k =>
+    simp only
+    -- the erased option is a `reference` one
+    have hk := List.findIdx?_eq_some_iff_getElem.mp hf
+    obtain ⟨hlt, hp, _⟩ := hk
+    have hlen : k < os.length := by simpa using hlt
+    have hidx : os.length - 1 - k < os.length := by omega
+    have hel : (os.reverse[k]) = os[os.length - 1 - k] := by
+      rw [List.getElem_reverse]
+    have hkind : (os[os.length - 1 - k]).kind = .reference := by
+      rw [← hel]
+      have := hp
+      simp only [Bool.and_eq_true, beq_iff_eq] at this
+      exact this.1
+    unfold optKinds
+    rw [List.eraseIdx_eq_take_drop_succ]
+    conv => rhs; rw [← List.take_append_drop (os.length - 1 - k) os]
+    rw [List.filterMap_append, List.filterMap_append]
+    congr 1
+    rw [List.drop_eq_getElem_cons hidx, List.filterMap_cons]
+    simp [optKind, hkind]
+
+theorem optKinds_append_mark (os : List Opt) :
+    optKinds (os ++ [{ kind := .reference, hasExpr := false }]) = optKinds os := by
+  simp [optKinds, List.filterMap_append, optKind]
 
 theorem forgetIndex_sig (t t' : Table) (id : Nat) (hs : t.forgetIndex id = .ok t') : t'.sig = t.sig := by
   unfold forgetIndex at hs
@@ -249,12 +363,14 @@ theorem forgetForeignKey_sig (t t' : Table) (id : Nat) (hs : t.forgetForeignKey 
   unfold forgetForeignKey at hs
   obtain ⟨f, _, hs⟩ := bind_ok hs
   have := pure_ok hs; subst this
-  show List.map (fun c : Column => (c.name, c.action, c.cur.typ)) (t.cols.map _) = _
+  show List.map (fun c : Column => (c.name, c.action, c.cur.typ, optKinds c.cur.opts)) (t.cols.map _) = _
   rw [List.map_map]
   apply List.map_congr_left
   intro c _
   simp only [Function.comp_apply]
-  split <;> rfl
+  split
+  · simp only [optKinds_dropLastFkMark]
+  · rfl
 
 theorem stripColFromIndexes_sig (col : String) (k : Nat) : ∀ (t t' : Table),
     t.stripColFromIndexes col k = .ok t' → t'.sig = t.sig := by
@@ -290,7 +406,8 @@ theorem dropFksOnCol_sig (col : String) (k : Nat) : ∀ (t t' : Table),
 theorem removeColumn_names (t : Table) (name : String) (h : t.Inv) (ha : t.AllAdd) (id : Nat)
     (hg : t.colIdx.get? name = some id) :
     ∃ t', t.removeColumn name = .ok t' ∧ t'.colNames = t.colNames.eraseIdx id ∧ t'.AllAdd ∧
-      (∀ x ∈ t'.cols, ∃ x0 ∈ t.cols, x0.name = x.name ∧ x0.cur.typ = x.cur.typ) := by
+      (∀ x ∈ t'.cols, ∃ x0 ∈ t.cols, x0.name = x.name ∧ x0.cur.typ = x.cur.typ ∧
+        optKinds x0.cur.opts = optKinds x.cur.opts) := by
   obtain ⟨t', hs⟩ := removeColumn_total t name h
   refine ⟨t', hs, ?_⟩
   unfold removeColumn at hs
@@ -317,8 +434,8 @@ theorem removeColumn_names (t : Table) (name : String) (h : t.Inv) (ha : t.AllAd
       show List.map (fun x : Column => x.name) (t.cols.eraseIdx id) = _
       rw [← map_eraseIdx']
     · intro x hx
-      obtain ⟨x0, hx0, hn, ht⟩ := mem_of_sig hsig hx
-      exact ⟨x0, (List.eraseIdx_sublist _ _).subset hx0, hn, ht⟩
+      obtain ⟨x0, hx0, hn, ht, ho⟩ := mem_of_sig hsig hx
+      exact ⟨x0, (List.eraseIdx_sublist _ _).subset hx0, hn, ht, ho⟩
 
 /-- `RenameColumn`: the name at that position changes, and the record is marked `rename` -/
 theorem renameColumn_names (t : Table) (o n : String) (h : t.Inv) (id : Nat) (hg : t.colIdx.get? o = some id) :
